@@ -102,8 +102,39 @@ def cross_oracle(run, corr, deep):
     return found
 
 
+def reused_parser_oracle(run, corr, deep):
+    """the real parser reads exactly what the octets carry also when the decoder object decoded another message before
+    (trxcon's and fake_trx's receive paths keep parsing datagram after datagram): every field the header version transports,
+    and no burst where the octets carry none"""
+    msgs = c01.messages(run, deep)
+    pool = {"tx": [(m, l) for k, m, l in msgs if k == "tx"], "rx": [(m, l) for k, m, l in msgs if k == "rx"]}
+    reqs, meta = [], []
+    for k in ("tx", "rx"):
+        if len(pool[k]) < 2:
+            continue
+        nob = [x for x in pool[k] if x[0].burst is None] or pool[k]
+        for _ in range(run.scale(800, 10000)):
+            m1, l1 = run.rng.choice(pool[k])
+            m2, l2 = run.rng.choice(nob if run.rng.random() < 0.5 else pool[k])
+            reqs.append("trxd.%s.rt2 %d %s %d %s" % (k, l1, m1.line(), l2, m2.line()))
+            meta.append((k, m1, l1, m2, l2))
+    out = vf.run_lines(T.HARNESS, reqs)
+    found = 0
+    for (k, m1, l1, m2, l2), a in zip(meta, out):
+        why = c01.judge_reused(k, m2, a)
+        if why:
+            w = m2.asdict()
+            w.update({"kind": "trxd-parse-reused-decoder", "class": k, "line": m2.line(), "legacy": l2, "first_line": m1.line(), "first_legacy": l1,
+                      "what": "the parser, re-used after another datagram, does not read what the octets carry: " + why, "decoded": a[:400]})
+            found += run.report_witness(w)
+            break
+    corr.distribution["oracle: datagrams parsed by a re-used decoder object and compared with the literal reading"] = len(reqs)
+    return found
+
+
 def search(run, corr, deep):
     found = layout_oracle(run, corr, deep)
+    found += reused_parser_oracle(run, corr, deep)
     found += trxcon_part.oracle(run, corr, deep, parts=("rxd", "txd"))
     found += cross_oracle(run, corr, deep)
     return found
@@ -123,6 +154,13 @@ def replay(run, path):
             a = vf.run_lines(T.HARNESS, ["trxd.%s.gen %d %s" % (w["class"], w["legacy"], w["message"])])[0]
             print("replay: %s -> %s\n  layout demands %s" % (w["message"][:200], a[:300], w["layout_demands"][:300]))
             bad += (not a.startswith("ok ")) or T.dec_octets(a[3:]).hex()[:400] != w["layout_demands"]
+        elif kind == "trxd-parse-reused-decoder":
+            k = w["class"]
+            a = vf.run_lines(T.HARNESS, ["trxd.%s.rt2 %d %s %d %s" % (k, w["first_legacy"], w["first_line"], w["legacy"], w["line"])])[0]
+            mm = (T.parse_tx_answer if k == "tx" else T.parse_rx_answer)("ok " + w["line"])
+            why = c01.judge_reused(k, mm, a)
+            print("replay: %s parsed after %s -> %s : %s" % (w["line"][:120], w["first_line"][:80], a[:160], why or "property holds"))
+            bad += why is not None
         elif kind == "cross-py-to-trxcon":
             exe = trxcon_part.build(run)
             enc = vf.run_lines(T.HARNESS, ["trxd.rx.gen %d %s" % (w["legacy"], w["message"])])[0]
